@@ -11,7 +11,7 @@ import threading
 import time as _time
 from collections import deque
 from concurrent.futures import ThreadPoolExecutor
-from typing import Any, Dict, List, Optional
+from typing import Any, Dict, List, Optional, Tuple
 
 from taskiq import (
     AckableMessage,
@@ -39,6 +39,14 @@ class CustomError(Exception):
 
 class CustomBase(BaseException):
     pass
+
+
+class LockedError(RuntimeError):
+    """An application error that cannot be pickled itself (it holds a lock); its base class can."""
+
+    def __init__(self, *args: Any) -> None:
+        super().__init__(*args)
+        self.guard = threading.Lock()
 
 
 class SkipResult(NoResultError):
@@ -124,6 +132,7 @@ EXC_POOL: Dict[str, Any] = {
     "FalsyError": FalsyError,
     "EmptyLenError": EmptyLenError,
     "BadStrError": BadStrError,
+    "LockedError": LockedError,
     # what Context.reject() raises: an ordinary failure for the result and for the retry middleware
     "TaskRejectedError": lambda tok, value: _rejected(tok, value),
 }
@@ -474,6 +483,18 @@ class RecordingBackend(AsyncResultBackend):  # type: ignore[type-arg]
             labels=safe_json(dict(result.labels)),
         )
         sc.saved.append((d, task_id, result))
+        if sc.spec.get("backend", {}).get("pickle"):
+            # a backend that keeps results as pickles (what the network backends do)
+            import pickle
+
+            try:
+                back = pickle.loads(pickle.dumps(result))  # noqa: S301
+                sc.trace.add("set_pickled", d, task_id=task_id, is_err=back.is_err,
+                             err=None if back.error is None else type(back.error).__name__,
+                             err_args=None if back.error is None else safe_json(list(back.error.args)),
+                             rv=safe_json(back.return_value))
+            except Exception as exc:  # noqa: BLE001
+                sc.trace.add("set_pickle_failed", d, task_id=task_id, exc=repr(exc)[:200])
         if self.lat == "y":
             await asyncio.sleep(0)
         elif self.lat:
@@ -643,7 +664,9 @@ def _make_hook(sc: Scenario, i: int, hook: str, hs: Dict[str, Any]) -> Any:
 def _echo(ctx: Any) -> Any:
     try:
         m = ctx.message
-        return [m.task_id, m.labels.get("own"), m.args[0] if m.args else None]
+        # (4th element: the *names* of the labels this Context carries, bookkeeping of Context.requeue aside)
+        return [m.task_id, m.labels.get("own"), m.args[0] if m.args else None,
+                sorted(str(k) for k in m.labels if k != "X-Taskiq-requeue")]
     except Exception as exc:  # noqa: BLE001
         return ["<echo failed>", repr(exc), None]
 
@@ -1025,6 +1048,44 @@ def build_payload(sc: Scenario, broker: AsyncBroker, m: Dict[str, Any], tok: str
     return broker.formatter.dumps(msg).message
 
 
+class _AltFormatter:
+    """An application formatter whose wire format is not JSON (a prefix and a pickle)."""
+
+    def dumps(self, message: Any) -> Any:
+        import pickle
+
+        from taskiq.compat import model_dump
+        from taskiq.message import BrokerMessage
+
+        return BrokerMessage(task_id=message.task_id, task_name=message.task_name,
+                             message=b"ALT1" + pickle.dumps(model_dump(message)), labels=message.labels)
+
+    def loads(self, message: bytes) -> Any:
+        import pickle
+
+        from taskiq.compat import model_validate
+        from taskiq.message import TaskiqMessage
+
+        if not message.startswith(b"ALT1"):
+            raise ValueError("not an ALT1 frame")
+        return model_validate(TaskiqMessage, pickle.loads(message[4:]))  # noqa: S301
+
+
+def _set_wire_format(broker: Any, how: Optional[str], saved: Optional[Tuple[Any, Any]] = None) -> Tuple[Any, Any]:
+    """Configure (or restore) the broker's formatter / serializer through the public with_* calls."""
+    prev = (broker.formatter, broker.serializer)
+    if saved is not None:
+        broker.with_formatter(saved[0])
+        broker.with_serializer(saved[1])
+    elif how == "formatter":
+        broker.with_formatter(_AltFormatter())
+    elif how == "serializer":
+        from taskiq.serializers import PickleSerializer
+
+        broker.with_serializer(PickleSerializer())
+    return prev
+
+
 # ------------------------------------------------------------------------------------
 # run
 
@@ -1079,6 +1140,10 @@ def run_worker(spec: Dict[str, Any], real: bool = False) -> RunResult:
 
             bk_cls = type("RecordingAuditBackend", (RecordingBackend, DummyResultBackend), {})
         backend_obj = bk_cls(sc)
+        # the wire format is configured after the worker object exists (builder-style configuration in any order):
+        # everything is encoded in the final format, only the Receiver constructor sees the defaults
+        fmt_late = spec.get("fmt_late") if (not inmem and spec.get("via") != "api") else None
+        fmt_default = _set_wire_format(broker, fmt_late) if fmt_late else None
         late_backend = bool(spec.get("backend", {}).get("late")) and not inmem and spec.get("via") != "api"
         if not late_backend:
             broker.result_backend = backend_obj
@@ -1296,6 +1361,7 @@ def run_worker(spec: Dict[str, Any], real: bool = False) -> RunResult:
             except BaseException:  # noqa: BLE001
                 pass
             return
+        fmt_final = _set_wire_format(broker, None, fmt_default) if fmt_late else None
         receiver = MonReceiver(
             broker=broker,
             executor=None if cfg.get("no_executor") else executor,
@@ -1310,6 +1376,9 @@ def run_worker(spec: Dict[str, Any], real: bool = False) -> RunResult:
         )
         receiver.sc = sc
         rr.receiver = receiver
+        if fmt_late:
+            _set_wire_format(broker, None, fmt_final)
+            sc.trace.add("wire_format_late", None, how=fmt_late)
         if spec.get("twin_receiver"):
             # a second worker object in this process: its broker has tasks of the same names with another signature
             from mon.args_labels import PlainBroker
